@@ -101,7 +101,37 @@ def run_witnesses(ctx):
     return out
 
 
+# seeded probes aimed at this pass (the generator rarely defines loop constants): every way a
+# constant can be folded / kept / read, incl. a constant used directly in the guard
+PROBES = [
+    "a = 2\nu = Bernoulli(1/2)\nk = a*a + 1\nm = u + k\nx = 0\ny = 1\nwhile true:\n    x = u {1/2} k - 3\n"
+    "    if x <= 1 && u >= 1:\n        y = a - y\n    end\n    if m > 5:\n        y = 1\n    end\nend\n",
+    "k = 1\nf = 0\nwhile k > 0:\n    f = 1 - f\nend\n",
+    "x = 3\nk = x + 1\nwhile true:\n    x = x + k\nend\n",
+    "k = p + 1\nj = k*k\nx = 0\nwhile true:\n    x = x + k {1/2} x + j\nend\n",
+    "c = 0\nd = 1\nx = 0\nwhile d == 1:\n    if c == 0:\n        x = x + 1 {1/2} x\n    end\nend\n",
+    "a = 0\nx = 1\nk = a*x\nwhile true:\n    x = x + k + 1 {1/2} x\nend\n",
+    "u = Bernoulli(1/2)\nk = u + 1\nj = k*k\nx = 0\nwhile true:\n    x = x + j {1/2} 0\nend\n",
+    "k = 1 {1/2} 2\nx = 0\nwhile true:\n    x = x + k {1/2} 0\nend\n",
+    "b = Bernoulli(1/2)\nk = 3\nif b == 1:\n    k = 1\nelse:\n    k = 2\nend\nx = 0\nwhile true:\n    x = k {1/2} 0\nend\n",
+    "k = 2\nx = 0\ny = 0\nwhile x < k:\n    x = x + 1 {1/2} x\n    y = Normal(k, 1)\nend\n",
+]
+
+
+def probe_runs():
+    texts = PROBES + [P.prog_text(p) for _, p, _, _ in WITNESSES]
+    tasks = [{"kind": "analyze", "text": t, "goals": [], "solve": False, "snapshots": True, "opts": {}, "timeout": 60} for t in texts]
+    out = []
+    for t, r in zip(texts, lib.run_tasks(tasks, timeout=60)):
+        if "error" in r:
+            continue
+        out.append({"text": t, "opts": {}, "snapshots": r.get("snapshots") or [], "probe": True})
+    return out
+
+
 def run_pass(ctx, runs):
+    import time
+    t0 = time.time()
     ok, log = lib.coq_make(["theories/PassConstants.vo"])
     cov = ctx.coverage.setdefault("pass_models", {})
     st = {"instances": 0, "model_equals_polar": 0, "hypothesis_constants_ok": 0, "hypothesis_false": 0, "something_folded": 0,
@@ -111,7 +141,9 @@ def run_pass(ctx, runs):
         ctx.violation("pass-model:ConstantsTransformer:build", {"log": log[-2000:]}, "theories/PassConstants.v does not build", no_input=True)
         return
     cases, seen = [], set()
-    for run in runs:
+    probes = probe_runs()
+    st["seeded_probes"] = len(probes)
+    for run in list(runs) + probes:
         pair = snapshot_pair(run, "ConditionsReducer", "ConstantsTransformer")
         if pair is None:
             continue
@@ -170,7 +202,8 @@ def run_pass(ctx, runs):
                               "the model of ConstantsTransformer (PassConstants.constants) and the real pass produce different programs for\n" + c["text"],
                               no_input=True)
     print(f"  [pass ConstantsTransformer] instances={st['instances']} model==polar={st['model_equals_polar']} "
-          f"constants_ok={st['hypothesis_constants_ok']} folded_something={st['something_folded']} not_modelled={st['not_modelled']}", flush=True)
+          f"constants_ok={st['hypothesis_constants_ok']} folded_something={st['something_folded']} not_modelled={st['not_modelled']} "
+          f"wall={time.time() - t0:.1f}s", flush=True)
     st["witnesses_outside_hypothesis"] = run_witnesses(ctx)
     ctx.coverage["trusted_base"] += ["harness/pass_constants.py + harness/core.py: conversion of Polar's pass snapshots to Syntax.flatprog "
                                      "(the comparison itself, PassConstants.constants_matches, runs inside Coq)"]
